@@ -66,6 +66,9 @@ static kcall_t mk_call(fsm_t* t, event_t e, EventSource s) { kcall_t c; c.target
 typedef struct { kcall_t first; char second; } kpair_t;
 static kpair_t make_pair(kcall_t c, char s) { kpair_t p; p.first = c; p.second = s; return p; }
 extern char g_cur_seq;
+/* the functor argument of fusion::for_each(event_list(), ...) is a default-constructed element of the event set: right type, default payload */
+extern const int g_default_payload;
+static event_t type_carrier(type_t t) { event_t e = g_evt; e.type = t; e.payload = g_default_payload; return e; }
 void kdq_push_back(fsm_t* fsm, kpair_t p)
 __CPROVER_requires(p.first.target == fsm)                                        /*@ob C05.deferred-occurrence-stored-for-this-machine */
 __CPROVER_requires(p.first.ev.type == g_dyn_type && p.first.ev.payload == g_evt.payload)   /*@ob C18.kleene-event-deferred-as-its-exact-dynamic-type */
